@@ -231,13 +231,19 @@ func (x *Ctx) bisim(r *core.Result, rs *core.RuleStat, what string, impl, ref *l
 	rs.Obligations += st.Cells
 	rs.Discharged += st.Cells - min(bad, st.Cells)
 	seen := map[string]bool{}
+	perPhase := map[string]int{}
 	for _, m := range mm {
 		key := what + ":" + m.Key()
 		if seen[key] {
 			continue
 		}
+		// at most two findings per reference phase (the remaining bytes of the same phase say the same thing)
+		if perPhase[m.RefName] >= 2 {
+			continue
+		}
+		perPhase[m.RefName]++
 		seen[key] = true
-		if len(seen) > 12 {
+		if len(seen) > 10 {
 			break
 		}
 		r.Findings = append(r.Findings, core.Finding{Rule: rs.Rule, Key: key, Pos: m.ImplPos, Msg: m.String(), Witness: fmt.Sprintf("%q", m.Witness), Reason: "violation"})
